@@ -2,7 +2,10 @@ module verif/engine
 
 go 1.23.0
 
-require golang.org/x/tools v0.29.0
+require (
+	golang.org/x/tools v0.29.0
+	gopkg.in/yaml.v3 v3.0.1
+)
 
 require (
 	golang.org/x/mod v0.22.0 // indirect
